@@ -45,6 +45,7 @@ class Registry:
 
     def __init__(self):
         self.extras = []
+        self.core = list(CORE)
 
     def add(self, names, defaults=None):
         if defaults is None:
@@ -59,11 +60,11 @@ class Registry:
     def fields(self, names, non_sampling=True):
         f = [(n, "f8") for n in names]
         if non_sampling:
-            f += [(n, t) for n, t, _ in CORE] + [(n, "f8") for n, _ in self.extras]
+            f += [(n, t) for n, t, _ in self.core] + [(n, "f8") for n, _ in self.extras]
         return f
 
     def defaults(self):
-        return [(n, d) for n, _, d in CORE] + list(self.extras)
+        return [(n, d) for n, _, d in self.core] + list(self.extras)
 
 
 def check_defaults(lp, reg, names, non_sampling, probs, tag):
@@ -88,6 +89,24 @@ def one_case(seed, n, counts):
     probs = []
     lpm.reset_extra_live_points_parameters()
     reg = Registry()
+    # a fifth of the cases run under non-default global options for the iteration field (documented in nessai.config.livepoints): registering and resetting *extra*
+    # fields must leave them alone
+    custom_core = n % 5 == 3
+    if custom_core:
+        it_default, it_dtype = int(rng.choice([-1, 7])), str(rng.choice(["i4", "i8"]))
+        config.livepoints.it_default, config.livepoints.it_dtype = it_default, it_dtype
+        config.livepoints.reset_properties()
+        reg.core = [("logP", "f8", np.nan), ("logL", "f8", np.nan), ("it", it_dtype, it_default)]
+        counts["cases_with_non_default_iteration_field_options"] = counts.get("cases_with_non_default_iteration_field_options", 0) + 1
+    try:
+        return _one_case_body(seed, n, counts, rng, probs, reg, lpm, config, Model, pd)
+    finally:
+        if custom_core:
+            config.livepoints.it_default, config.livepoints.it_dtype = 0, "i4"
+            config.livepoints.reset_properties()
+
+
+def _one_case_body(seed, n, counts, rng, probs, reg, lpm, config, Model, pd):
     d = int(rng.integers(1, 21))
     npts = int(rng.choice([0, 1, 1, 2, 3, 17, int(rng.integers(4, 1000))]))
     # registry history
@@ -264,8 +283,10 @@ def one_case(seed, n, counts):
             if v.shape != (npts, len(sub)) or not same(v, vals[:, : len(sub)]) or not np.shares_memory(v, lp):
                 probs.append(("view[prefix subset]", len(sub)))
     lpm.reset_extra_live_points_parameters()
+    reg.reset()
     if list(config.livepoints.non_sampling_parameters) != ["logP", "logL", "it"]:
         probs.append(("reset leaves extras",))
+    check_defaults(lpm.empty_structured_array(2, names), reg, names, True, probs, "after-final-reset:empty_structured_array")
     return dict(n=n, d=d, npts=npts, hist_len=len(hist), names=names[:4], problems=probs)
 
 
